@@ -661,8 +661,19 @@ func (e *executor) exec(line, lean string) string {
 			capt.take()
 		}
 		so := ""
+		if listWords != nil {
+			// each word is to be chosen with probability 1/Size(): the list itself must be duplicate-free
+			seenW := map[string]bool{}
+			for _, w := range listWords {
+				if seenW[w] {
+					so = " LIST-DUPLICATE=" + encCps(w)
+					break
+				}
+				seenW[w] = true
+			}
+		}
 		if wl != nil && listWords != nil && !ro.panicked && err == nil {
-			so = wlOracle(p, listWords, a.int("L"), a["sep"], decCps(a["cap"]))
+			so += wlOracle(p, listWords, a.int("L"), a["sep"], decCps(a["cap"]))
 		}
 		return genLine("wlgen", lean, p, err, ro, warn, unk, 8, secretsOf(p, listWords)) + so + mut + after()
 
